@@ -94,15 +94,22 @@ class PhaseMonitor(Monitor):
                     if slot["ti"] < bar:
                         ctx.violation("barrier", f"{name} on {ch}: pulse starts at {slot['ti']} before the latest phase shift of "
                                       f"its targets at {bar}", "barrier")
-                if req_pps:
-                    if cpd:
-                        absorbed = (basis, tgs)
-                    else:
-                        for q in tgs:
-                            self.shadow[basis][q] += req_pps
+                if cpd and name == "add_eom_pulse" and slot is not None and cpre["eom"]:
+                    # documented: corrects the drift accumulated at the off-detuning since the last pulse (or the start
+                    # of the EOM mode): the reference moves by post_phase_shift + delta_off * elapsed
+                    blk = cpre["eom"][-1]
+                    lastp = next((s for s in reversed(cpre["slots"]) if s["kind"] == "pulse"), None)
+                    tref = max(blk[0], lastp["tf"] if lastp is not None else 0)
+                    inc = (req_pps or 0.0) + blk[4] * (slot["ti"] - tref) * 1e-3
+                    for q in tgs:
+                        self.shadow[basis][q] += inc
+                    ctx.count("drift_corrected_pulse_shifts")
+                    if req_pps:
+                        ctx.count("post_phase_shifts")
+                elif req_pps:
+                    for q in tgs:
+                        self.shadow[basis][q] += req_pps
                     ctx.count("post_phase_shifts")
-                elif cpd:
-                    absorbed = (basis, tgs)
                 if len(ch_bases(post)) < len(post["chans"]):
                     self.multi_basis_channels = True
         elif name in ("enable_eom_mode", "modify_eom_setpoint", "disable_eom_mode") and op.get("cpd"):
